@@ -31,9 +31,9 @@ func init() {
 }
 
 type codecTuple struct {
-	field string
+	field  string
 	lo, hi int64
-	order string
+	order  string
 }
 
 func (t codecTuple) String() string { return fmt.Sprintf("%s@[%d,%d)%s", t.field, t.lo, t.hi, t.order) }
@@ -316,7 +316,6 @@ func c17r2(c *core.Ctx) {
 			return true
 		})
 		tested := int64(-1)
-		errRet := false
 		spec := core.GuardSpec{
 			Only: f,
 			GuardAtom: func(ff *core.Func, at core.Atom) bool {
@@ -348,30 +347,24 @@ func c17r2(c *core.Ctx) {
 						return []core.Witness{{What: "slice of the input"}}
 					}
 				}
+				// reporting success (a nil error) also needs the established length: on the failing outcome of the
+				// test every return must carry a non-nil error, in whatever form the branches are written
+				if rs, ok := x.(*ast.ReturnStmt); ok && len(rs.Results) == 1 {
+					if tv, ok := m.Info.Types[rs.Results[0]]; ok && tv.IsNil() {
+						return []core.Witness{{What: "return of a nil error"}}
+					}
+				}
 				return nil
 			},
 			SkipCallee: func(*core.Func) bool { return true },
 		}
 		res := m.MustPrecede(spec)
-		// failing branch returns a non-nil error
-		core.InspectNoLits(f.Body, func(n ast.Node) bool {
-			if is, ok := n.(*ast.IfStmt); ok && strings.Contains(m.ExprString(is.Cond), "len("+data.Name()+")") {
-				for _, st := range is.Body.List {
-					if rs, ok := st.(*ast.ReturnStmt); ok && len(rs.Results) == 1 && m.ExprString(rs.Results[0]) != "nil" {
-						errRet = true
-					}
-				}
-			}
-			return true
-		})
 		subject := f.Name
 		switch {
 		case len(res.Unguarded[f]) > 0:
-			c.Violation("C17/R2", subject, c.At(res.Unguarded[f][0].Node.Pos()), f.Name+": the input is sliced without a dominating length test; malformed input would panic instead of returning an error")
+			c.Violation("C17/R2", subject, c.At(res.Unguarded[f][0].Node.Pos()), fmt.Sprintf("%s: %s without a dominating length test; malformed input would panic or be accepted instead of returning an error", f.Name, res.Unguarded[f][0].What))
 		case tested < maxHi:
 			c.Violation("C17/R2", subject, c.At(f.Pos()), fmt.Sprintf("%s tests the input length against %d but slices up to offset %d", f.Name, tested, maxHi))
-		case !errRet:
-			c.Violation("C17/R2", subject, c.At(f.Pos()), f.Name+": the failing branch of the length test does not return a non-nil error")
 		default:
 			c.OK("C17/R2", subject, c.At(f.Pos()), fmt.Sprintf("length test against %d dominates all slices (largest offset %d) and its failing branch returns an error", tested, maxHi))
 		}
@@ -457,23 +450,24 @@ func c17r3(c *core.Ctx) {
 			if core.NamedName(m.Info.TypeOf(x)) == "entityPool" {
 				for _, e := range x.Elts {
 					if kv, ok := e.(*ast.KeyValueExpr); ok {
-						assigned[kv.Key.(*ast.Ident).Name] = kv.Value
+						assigned[litFieldKey(m, kv)] = kv.Value
 					}
 				}
 			}
 		case *ast.AssignStmt:
 			for i, l := range x.Lhs {
 				if k := fieldKeyOf(m, l); strings.HasPrefix(k, "entityPool.") && i < len(x.Rhs) {
-					assigned[strings.TrimPrefix(k, "entityPool.")] = x.Rhs[i]
+					assigned[k] = x.Rhs[i]
 				}
 			}
 		}
 		return true
 	})
 	for i := 0; i < pst.NumFields(); i++ {
-		name := pst.Field(i).Name()
+		key := m.FieldKey(pst.Field(i).Origin())
+		name := strings.TrimPrefix(key, "entityPool.")
 		subject := load.Name + ": entityPool." + name
-		v, ok := assigned[name]
+		v, ok := assigned[key]
 		if !ok {
 			c.Violation("C17/R3", subject, c.At(load.Pos()), fmt.Sprintf("%s does not restore entityPool.%s from the dump; the loaded world would issue handles that differ from the source world's (or duplicate ones)", load.Name, name))
 			continue
